@@ -76,6 +76,7 @@ out = (samples, logps)
         bindf = {"params": ("param", "params"), "action_dims": ("param", "action_dims"), "np": ("global", "numpy"), "itertools": ("global", "itertools")}
         spellings = ["[sum(action_dims[: i + 1]) for i in range(len(action_dims) - 1)]", "np.cumsum(action_dims[:-1])", "np.cumsum(np.asarray(action_dims[:-1]))",
                      "tuple(itertools.accumulate(action_dims[:-1]))", "list(itertools.accumulate(action_dims[:-1]))",
+                     "list(itertools.accumulate(action_dims))[:-1]", "tuple(itertools.accumulate(action_dims))[:-1]",
                      "jnp.cumsum(jnp.asarray(action_dims[:-1]))"]
         got = nzs.canon(flat[0].ret)
         wants = [nzs.canon(s.ref(bs, f"(tuple(jnp.split(jnp.asarray(params), {sp}, axis=-1)), action_dims)", bindf)) for sp in spellings]
@@ -163,6 +164,22 @@ def check(s):
              okr and f.get("arg:high") == ("attr", ("attr", self_, "action_space"), "high") and f.get("arg:low") == ("attr", ("attr", self_, "action_space"), "low"),
              "the squashed law is built with high=action_space.high and low=action_space.low (not interchanged)", s.loc("MLPSACPolicy", "_get_distribution"), key="squash-bounds",
              detail=show(r, maxlen=200), necessary_for="samples and the mode of the SAC policy lie within the action space's [low, high]")
+    # the heads hand the laws a valid parameterisation: the scale is exp(.) of a network output / parameter (positive by construction),
+    # the location is not
+    for pol_cls, meth in (("MLPSACPolicy", "_get_distribution"), ("BoxAction", "__call__")):
+        bh = s.builder(inline=set())
+        for p in live(s.paths(bh, pol_cls, meth)):
+            r = p.ret
+            if not (isinstance(r, tuple) and r and r[0] == "record"):
+                continue
+            f = fields(r)
+            sc = f.get("arg:scale", f.get("arg:scale_diag"))
+            lc = f.get("arg:loc")
+            is_exp = lambda v: isinstance(v, tuple) and v and v[0] == "call" and v[1] == ("global", "jax.numpy.exp")  # noqa: E731
+            s.ob("C15.3", f"{pol_cls}.{meth}[{r[1].split('.')[-1]}]", sc is not None and is_exp(sc) and lc is not None and not is_exp(lc),
+                 "the law's scale is exp(log-std) and its location is the mean output (not interchanged, no bare log-std as a scale)", s.loc(pol_cls, meth), key="scale-positive",
+                 detail=f"loc={show(lc if lc is not None else NONE, maxlen=80)}; scale={show(sc if sc is not None else NONE, maxlen=80)}",
+                 necessary_for="the policy heads construct valid parameterisations (a positive scale) of the laws the property quantifies over")
     if cases != {"SquashedNormal", "SquashedMultivariateNormalDiag"}:
         raise AnalysisError(f"MLPSACPolicy._get_distribution: expected scalar and vector cases, got {cases}")
     # ---------------------------------------------------------------- C15.4
